@@ -32,6 +32,7 @@ ALPHABETS = {
     'strchars': ['a', "'", '"', '\\', '\n', 'b', 'r', 'f', 'u', ' ', '{', '}', '#'],
     'fws': ["f'", 'f"""', '{', '}', "'", '"""', 'a', ' ', '\n', '\x0b', '\x1c', '\x85', '\xa0', '\u2028', ':',
             '\\', '#', '\r', '\f', '!r'],
+    'contstr': ["'", '"', '\\\n', 'a', 'b', 'r', '\n', ' ', "'''", '\\'],
     'ffc': ['#', '\f', 'x', '\n', ' ', 'a', 'if a:'],
     'lines15': ['a', ' ', '\n', '\r', '\f', '\x0b', '\x1c', '\x1d', '\x1e', '\x85', '\u2028', '\u2029'],
     # C12/C14 oriented
